@@ -210,6 +210,15 @@ class Unit:
         # structs of other crates whose fields the code reads (e.g. bitcoin::OutPoint {txid, vout}): declared in the
         # target list (trusted: field names and types are checked by rustc only through the differential harness)
         for n, flds in (foreign_structs or {}).items():
+            if isinstance(flds, str):
+                # b1012, round 9: `"Alias": "@path/of/file.rs::Struct"` -- a struct of another file of /repo imported under another
+                # name (`use …::VelocityControl as CoreVelocityControl`): its fields are read from that file's current source
+                r_, _, sn_ = flds[1:].partition("::")
+                if not flds.startswith("@") or sn_ not in index_of(r_).structs:
+                    raise RsError("foreign_structs: %s: no struct %s" % (n, flds))
+                if n not in self.fi.structs:
+                    self.fi.structs[n] = index_of(r_).structs[sn_]; self.struct_src[n] = "%s (struct %s)" % (r_, sn_)
+                continue
             if n not in self.fi.structs:
                 self.fi.structs[n] = [(f, Parser(lex(ty) + [Tok("eof", "", 0)], 0, "<foreign>").type_()) for f, ty in flds.items()]
                 self.struct_src[n] = "declared in the target list"
@@ -2734,6 +2743,13 @@ class FnTranslator:
         if m == "into" and not args:
             if want is not None and is_uint(want) and is_uint(bt) and UBITS[want[1]] >= UBITS[bt[1]]: return base, want, "val"
             if want is not None and want == bt: return base, bt, "val"
+            if want is not None and want[0] == "struct" and bt[0] == "struct" and self.u.fi.fns.get((want[1], "from")) not in (None, "ambiguous"):
+                # b1012, round 9: `x.into()` where the wanted type is a struct of the unit with exactly one `impl From<_> for T`
+                # (conversions between in-memory and persisted types): the call `T::from(x)`; the argument type is checked
+                info = self.u.get_fn(want[1], "from")
+                ps = [p_ for p_ in info.params if p_[0] != "self"]
+                if len(ps) == 1 and ps[0][1] == bt and not info.mut_params:
+                    return self.call_translated(info, [base if base.startswith("(") or " " not in base else "(" + base + ")"], env, pre)
             raise RsError(".into() without a known widening target")
         if k == "viter":
             # values/keys/entries of a collection in an order the model does not know
